@@ -6,20 +6,36 @@ import json, os, sys
 HERE = os.path.dirname(os.path.dirname(os.path.abspath(__file__)))
 sys.path.insert(0, HERE)
 from rules.core import engine
-from rules.core.rules import guard_inventory, err_inventory
+from rules.core.rules import guard_inventory, err_inventory, condition_inventory, mustpass_inventory, fns_in_files, owner_qual
+from rules.core.inventory_rule import all_anchor_files
 from rules.core.panics import TABLES
 
 configs = sys.argv[1:] or ['A', 'B', 'C', 'D', 'P']
-gi, ei = {}, {}
+gi, ei, ci, mi = {}, {}, {}, {}
 gp, ep = os.path.join(TABLES, 'guard_inventory.json'), os.path.join(TABLES, 'err_inventory.json')
+cp_, mp_ = os.path.join(TABLES, 'condition_inventory.json'), os.path.join(TABLES, 'mustpass_inventory.json')
 if os.path.exists(gp):
     gi = json.load(open(gp)); ei = json.load(open(ep))
+if os.path.exists(cp_):
+    ci = json.load(open(cp_)); mi = json.load(open(mp_))
 for c in configs:
     P = engine.load_prog(c)
     gi[c] = guard_inventory(P, r'.')
     ei[c] = err_inventory(P, r'.')
+    files = all_anchor_files()
+    owner_file = {}
+    for f in fns_in_files(P, files):
+        owner_file.setdefault(owner_qual(P, f), f['loc'].rsplit(':', 1)[0])
+        owner_file.setdefault(f['qual'], f['loc'].rsplit(':', 1)[0])
+    cc = condition_inventory(P, files)
+    ci[c] = {k: dict(v, __file__=owner_file.get(k, '?')) for k, v in cc.items()}
+    mm = mustpass_inventory(P, files)
+    mi[c] = {k: {'file': owner_file.get(k, '?'), 'callees': v} for k, v in mm.items()}
+    print(c, 'conditions', sum(len(v) - 1 for v in ci[c].values()), 'must-pass callees', sum(len(v['callees']) for v in mi[c].values()))
     print(c, 'functions with guards', len(gi[c]), 'guards', sum(sum(v.values()) for v in gi[c].values()),
           'functions constructing errors', len(ei[c]), 'constructions', sum(len(v) for v in ei[c].values()))
 os.makedirs(TABLES, exist_ok=True)
 json.dump(gi, open(gp, 'w'), indent=1, sort_keys=True)
 json.dump(ei, open(ep, 'w'), indent=1, sort_keys=True)
+json.dump(ci, open(cp_, 'w'), indent=1, sort_keys=True)
+json.dump(mi, open(mp_, 'w'), indent=1, sort_keys=True)
